@@ -9,19 +9,25 @@
 use crate::rng::Rng;
 use crate::{Ctx, Tier};
 
+pub mod brk;
 pub mod common;
+pub mod evict;
 pub mod keyspace;
 pub mod page;
 pub mod retry;
 pub mod route;
 pub mod smoke;
+pub mod timestamp;
 
 /// Which family belongs to which property (a family is generated for that property only).
 pub fn family_of(pid: &str) -> Option<&'static str> {
     match pid {
         "C06" => Some("retry"),
         "C07" => Some("page"),
+        "C10" => Some("break"),
         "C12" => Some("route"),
+        "C14" => Some("evict"),
+        "C18" => Some("timestamp"),
         "C20" => Some("keyspace"),
         _ => None,
     }
@@ -30,9 +36,12 @@ pub fn family_of(pid: &str) -> Option<&'static str> {
 pub fn generate(pid: &str, rng: &mut Rng, tier: Tier, emit: &mut dyn FnMut(String)) {
     match family_of(pid) {
         Some("retry") => retry::generate(rng, tier, emit),
+        Some("break") => brk::generate(rng, tier, emit),
+        Some("evict") => evict::generate(rng, tier, emit),
         Some("keyspace") => keyspace::generate(rng, tier, emit),
         Some("page") => page::generate(rng, tier, emit),
         Some("route") => route::generate(rng, tier, emit),
+        Some("timestamp") => timestamp::generate(rng, tier, emit),
         _ => {}
     }
 }
@@ -44,10 +53,13 @@ pub fn run(_pid: &str, case: &str, ctx: &mut Ctx) -> String {
     }
     match words[1] {
         "retry" => retry::run(&words[2..], ctx),
+        "break" => brk::run(&words[2..], ctx),
+        "evict" => evict::run(&words[2..], ctx),
         "keyspace" => keyspace::run(&words[2..], ctx),
         "page" => page::run(&words[2..], ctx),
         "route" => route::run(&words[2..], ctx),
         "smoke" => smoke::run(&words[2..], ctx),
+        "timestamp" => timestamp::run(&words[2..], ctx),
         // developer aid: `e2e gen <Cxx> <quick|thorough> <seed>` prints that property's e2e cases joined by ';'
         "gen" if words.len() == 5 => {
             let mut out = Vec::new();
